@@ -16,7 +16,7 @@ from fractions import Fraction
 from common import Ctx, driver_json, frac_str
 
 PROPERTY = "C20"
-LEAN_MODULES = ["Proofs.C20", "Proofs.C20.Returns", "Proofs.C20.Stats"]
+LEAN_MODULES = ["Proofs.C20", "Proofs.C20.Returns", "Proofs.C20.Stats", "Proofs.C20.Perf"]
 DRIVERS = ["driver_metrics"]
 RULE = ("positive net-value series of length 2..2000 (1..3 and empty in the malformed stream) from nine shape generators (random walk, rising, "
         "falling, constant, V, late-peak where the largest absolute and the largest relative decline differ, two-scale, ties on a coarse "
